@@ -1141,6 +1141,30 @@ def tensor_bytes(hc) -> list[bytes]:
     return out
 
 
+def bindings_of(hc, model, ret) -> list:
+    """What the caller ends up with per tensor index after a successful save: [location, offset, length,
+    bytes read back through that ExternalTensor == the tensor's bytes]  (None if not external).
+    unload_from_model: the initializers w0..wn-1 of the model; convert / write: the returned list, by position."""
+    import onnx_ir as ir
+    data = tensor_bytes(hc)
+    n = len(hc["tensors"])
+    if hc.get("entry", "unload") == "unload":
+        ts = [model.graph.initializers[f"w{i}"].const_value for i in range(n)]
+    else:
+        ts = list(ret) if ret is not None else []
+    out = []
+    for i, t in enumerate(ts):
+        if not isinstance(t, ir.ExternalTensor):
+            out.append(None)
+            continue
+        try:
+            ok = bytes(t.tobytes()) == data[i]
+        except Exception:  # noqa: BLE001
+            ok = False
+        out.append([str(t.location), t.offset, t.length, ok])
+    return out
+
+
 def invoke_save(hc, model, objs, out, callback, max_workers, cap):
     """The entry point named by hc["entry"]:
        "unload"  (default) external_data.unload_from_model on a model (zero-byte initializers are never externalised)
@@ -1238,7 +1262,8 @@ def reference(hc, workdir) -> dict:
     def cb(tensor, info):
         layout[info.index] = (info.filename, info.offset)
     with _chunk(hc):
-        invoke_save(hc, model, ref_objs, out, cb, None, ed._DEFAULT_MAX_IN_FLIGHT_BYTES)
+        ret = invoke_save(hc, model, ref_objs, out, cb, None, ed._DEFAULT_MAX_IN_FLIGHT_BYTES)
+    ref_bindings = bindings_of(hc, model, ret)
     files = _list_files(out)
     shutil.rmtree(wd, ignore_errors=True)
     n = len(hc["tensors"])
@@ -1262,7 +1287,7 @@ def reference(hc, workdir) -> dict:
     base = [sum(k[:p]) for p in range(len(names))]
     return {"files": files, "names": names, "pool_of": pool_of, "offsets": [layout[i][1] for i in range(n)],
             "pool_sizes": sizes, "pool_first": first, "serial": serial, "k": k, "base": base, "outer": outer,
-            "limit": limit, "nw": sum(k)}
+            "limit": limit, "nw": sum(k), "bindings": ref_bindings}
 
 
 def open_fail_attempts(hc) -> list[int]:
@@ -1299,7 +1324,7 @@ def _failing_open(flagholder, hc, before=None, on_attempt=None):
     return fake_open
 
 
-def run_coop(hc, plan, workdir, chooser, pickfn=None, keyfn=None, max_steps=4000, timeout=60.0) -> dict:
+def run_coop(hc, plan, workdir, chooser, pickfn=None, keyfn=None, max_steps=4000, timeout=20.0) -> dict:
     """One cooperative run of the real unload_from_model under the given scheduler policy."""
     from onnx_ir import _core
     from onnx_ir import external_data as ed
@@ -1377,8 +1402,9 @@ def run_coop(hc, plan, workdir, chooser, pickfn=None, keyfn=None, max_steps=4000
     def main():
         me = sched.cur
         try:
-            invoke_save(hc, model, objs, out, callback, hc["max_workers"], hc["cap"])
+            ret = invoke_save(hc, model, objs, out, callback, hc["max_workers"], hc["cap"])
             result["outcome"] = "ok"
+            result["bindings"] = bindings_of(hc, model, ret)
         except _Abort:
             raise
         except BaseException as e:  # noqa: BLE001
@@ -1428,7 +1454,8 @@ def run_coop(hc, plan, workdir, chooser, pickfn=None, keyfn=None, max_steps=4000
            "observed_pools": rt.observed_pools, "nbudgets": len(rt.budgets),
            "write_counts": dict(rt.write_count), "open_failed": rt.open_failed, "nopen": rt.nopen,
            "files": _list_files(out) if sched.outcome == "finished" else None,
-           "threads": [t.name for t in sched.threads], "wall": time.time() - t0}
+           "threads": [t.name for t in sched.threads], "wall": time.time() - t0,
+           "bindings": result.get("bindings")}
     shutil.rmtree(wd, ignore_errors=True)
     return res
 
@@ -1608,6 +1635,12 @@ def oracle(hc, plan, res) -> list[str]:
             bad.append(f"directories left behind: {res['files']['__dirs__']}")
         if sorted(idx) != list(range(n)):
             bad.append(f"callback not invoked exactly once per tensor: indices {sorted(idx)}")
+        if res.get("bindings") is not None and res["bindings"] != plan.get("bindings"):
+            diff = [i for i, (a, b) in enumerate(zip(res["bindings"], plan["bindings"])) if a != b] \
+                if len(res["bindings"]) == len(plan["bindings"]) else "length"
+            bad.append(f"after the save the tensors at positions {diff} are bound to another (location, offset, length) "
+                       f"than after the serial save, or do not read back their bytes: {res['bindings']} "
+                       f"vs {plan['bindings']}")
     else:
         if not any_fail:
             bad.append(f"save raised {res['outcome']} ({res.get('message')}) although nothing fails")
@@ -1857,8 +1890,9 @@ def soak(hc, plan, workdir, rng, runs) -> list[str]:
 
         def call(box=box, model=model, out=out, callback=callback, objs=objs):
             try:
-                invoke_save(hc, model, objs, out, callback, hc["max_workers"], hc["cap"])
+                ret = invoke_save(hc, model, objs, out, callback, hc["max_workers"], hc["cap"])
                 box["outcome"] = "ok"
+                box["bindings"] = bindings_of(hc, model, ret)
             except BaseException as e:  # noqa: BLE001
                 box["outcome"] = "raise:" + type(e).__name__
         try:
@@ -1889,7 +1923,7 @@ def soak(hc, plan, workdir, rng, runs) -> list[str]:
         res = {"sched_outcome": "finished", "problems": st["problems"], "outcome": outcome, "message": "",
                "cb_log": [(i, "?") for i in st["cb"]], "files": _list_files(out), "nbudgets": 0,
                "max_inflight": 0, "max_materialised": st["maxmat"], "write_counts": dict(st["wcount"]),
-               "open_failed": _Flag.open_failed}
+               "open_failed": _Flag.open_failed, "bindings": box.get("bindings")}
         for t in objs.values():
             t._c09_hook = None
         shutil.rmtree(wd, ignore_errors=True)
